@@ -16,6 +16,36 @@ class Zip:
         self.seqs = seqs
 
 
+class SymGen:
+    """generator expression over a symbolic-length iterable: item(k) evaluates the element for a symbolic index"""
+
+    def __init__(self, n, item):
+        self.n = n
+        self.item = item
+
+
+def sym_length_and_elem(it, iterable, ctx):
+    """(n, elem) of a symbolic-length iterable, or None"""
+    from .engine import num_binop, num_cmp, z_ite
+    if isinstance(iterable, SymArr) and not isinstance(iterable.n, int):
+        return iterable.n, iterable.elem
+    if isinstance(iterable, Enumerate):
+        r = sym_length_and_elem(it, iterable.seq, ctx)
+        if r is None:
+            return None
+        n, g = r
+        st0 = iterable.start
+        return n, (lambda k: (num_binop("+", k, st0), g(k)))
+    if isinstance(iterable, Zip):
+        n = None
+        for s in iterable.seqs:
+            ln = s.n if isinstance(s, SymArr) else len(s)
+            n = ln if n is None else z_ite(num_cmp("<=", n, ln), n, ln)
+        seqs = iterable.seqs
+        return n, (lambda k: tuple((s.elem(k) if isinstance(s, SymArr) else it.getitem(s, k, ctx)) for s in seqs))
+    return None
+
+
 def binop(ctx, op, a, b):
     raise Unsupported("symbolic list op")
 
